@@ -56,8 +56,8 @@ def scrape_constants(repo):
     grab("vol_namePad", v, r"paddedStringTableLength = \(volInfo\.stringTableLength \+ <NUM>\) & ~3")
     grab("vol_indexPad", v, r"paddedIndexTableLength = \(volInfo\.indexTableLength \+ <NUM>\) & ~3")
     grab("vol_blockPad", v, r"previousIndex\.fileSize \+ <NUM>\) & ~")
-    grab("vol_firstBlockExtra", v, r"paddedIndexTableLength \+ <NUM>;")
-    grab("vol_headerExtra", v, r"paddedIndexTableLength \+ <NUM>\)\)")
+    grab("vol_firstBlockExtra", v, r"dataBlockOffset\s*=\s*volInfo\.paddedStringTableLength\s*\+\s*volInfo\.paddedIndexTableLength\s*\+\s*<NUM>\s*;")
+    grab("vol_headerExtra", v, r"TagVOL_\s*,\s*volInfo\.paddedStringTableLength\s*\+\s*volInfo\.paddedIndexTableLength\s*\+\s*<NUM>\s*\)")
     # family scrapers: extract/fam_<name>.py with `scrape(repo) -> (dict name -> int | list of int, list of problems)`
     import glob, importlib
     for f in sorted(glob.glob(os.path.join(os.path.dirname(os.path.abspath(__file__)), "fam_*.py"))):
